@@ -103,6 +103,12 @@ def make_case(rng, special=None):
     return grid, [DiffuseDroplet(np.array([0.0, 0.0, z]), R, w)]
 
 
+# minimised past findings (see known_findings.json)
+CORPUS = [
+    {"polar": (17.6, 44), "R": 1.3826774317286503, "w": 0.652745738918393, "map": (0.3, 4.0), "rule": "auto", "levels": "fitted-auto"},
+]
+
+
 def run_cases(ck: Check, n: int):
     from pde import ScalarField
     from droplets.emulsions import Emulsion
@@ -110,19 +116,31 @@ def run_cases(ck: Check, n: int):
 
     rng = ck.rng
     worst = {"position": 0.0, "radius": 0.0, "width": 0.0}
-    for i in range(n):
-        special = {0: "corner", 1: "mixed", 3: "corner"}.get(i % 5)
-        grid, drops = make_case(rng, special)
+    for i in range(-len(CORPUS), n):
+        if i < 0:
+            # corpus of past findings, evaluated first on every run
+            c = CORPUS[i]
+            from pde import PolarSymGrid
+            from droplets.droplets import DiffuseDroplet
+
+            grid = PolarSymGrid(*c["polar"])
+            drops = [DiffuseDroplet(np.zeros(2), c["R"], c["w"])]
+            (a, b), rule, levels, special = c["map"], c["rule"], c["levels"], None
+        else:
+            special = {0: "corner", 1: "mixed", 3: "corner"}.get(i % 5)
+            grid, drops = make_case(rng, special)
         if not drops:
             continue
         if special:
             ck.count(f"special.{special}")
         base = Emulsion(drops).get_phasefield(grid).data
-        a, b = rng.choice([(1.0, 0.0), (1.0, 0.0), (2.5, -1.0), (0.3, 4.0)])
+        if i >= 0:
+            a, b = rng.choice([(1.0, 0.0), (1.0, 0.0), (2.5, -1.0), (0.3, 4.0)])
         field = ScalarField(grid, a * base + b)
         vmin, vmax = b, a + b
-        rule = rng.choice(["auto", "extrema", "mean", "otsu", (vmin + vmax) / 2])
-        levels = rng.choice(["given", "fitted-given", "fitted-auto"]) if (a, b) != (1.0, 0.0) else rng.choice(["default", "given", "fitted-given", "fitted-auto"])
+        if i >= 0:
+            rule = rng.choice(["auto", "extrema", "mean", "otsu", (vmin + vmax) / 2])
+            levels = rng.choice(["given", "fitted-given", "fitted-auto"]) if (a, b) != (1.0, 0.0) else rng.choice(["default", "given", "fitted-given", "fitted-auto"])
         rargs = {"default": {}, "given": dict(vmin=vmin, vmax=vmax), "fitted-given": dict(vmin=vmin, vmax=vmax, adjust_values=True),
                  "fitted-auto": dict(vmin=None, vmax=None, adjust_values=True)}[levels]
         gname = type(grid).__name__
@@ -150,7 +168,14 @@ def run_cases(ck: Check, n: int):
             ew = abs(f.interface_width - d.interface_width) / d.interface_width if f.interface_width is not None else float("inf")
             worst["position"], worst["radius"], worst["width"] = max(worst["position"], ep), max(worst["radius"], er), max(worst["width"], ew)
             if max(ep, er, ew) > TOL:
-                ck.fail(f"recovery error position {ep:.2e} (rel. to R), radius {er:.2e}, width {ew:.2e} exceeds 1e-4", {**sig, "check": "recovery"},
+                # classification of the input for the known-findings file: how many support points the fit had, the
+                # contrast of the image relative to its offset, and by how much the bound is exceeded
+                from scipy import ndimage as _nd
+
+                npts = int(np.sum(_nd.binary_dilation(d._get_phase_field(grid, dtype=bool), iterations=1 + int(2 * d.interface_width))))
+                sig2 = {**sig, "check": "recovery", "fit_points_at_most_8": npts <= 8, "contrast_at_most_half_with_offset": bool(abs(a) <= 0.5 and b != 0),
+                        "error_below_5e-4": bool(max(ep, er, ew) < 5e-4)}
+                ck.fail(f"recovery error position {ep:.2e} (rel. to R), radius {er:.2e}, width {ew:.2e} exceeds 1e-4 ({npts} support points in the fit region)", sig2,
                         {**case, "found": [x.data.tolist() for x in found]})
         if len(ck.samples) < 3:
             ck.sample(case)
@@ -240,6 +265,46 @@ def periodic_cylinder_boundary(ck: Check, n: int):
             ck.fail(f"recovered (z={f.position[2]}, R={f.radius}, w={f.interface_width}) for (z={zc}, R={R}, w={w})", {**sig, "check": "recovery"}, case)
 
 
+def small_radial(ck: Check, n: int):
+    """the smallest resolvable droplets (3 to 3.5 cells) on fine polar / spherical grids, where the fit region holds hardly
+    more support points than there are parameters - with every intensity option"""
+    from pde import PolarSymGrid, ScalarField, SphericalSymGrid
+    from droplets.droplets import DiffuseDroplet
+    from droplets.image_analysis import locate_droplets
+
+    rng = ck.rng
+    for i in range(n):
+        cls = [PolarSymGrid, SphericalSymGrid][i % 2]
+        dr = rng.choice([0.25, 0.4, 0.2])
+        nn = rng.randint(16, 24)
+        grid = cls(nn * dr, nn)
+        R, w = rng.uniform(3.0, 3.45) * dr, rng.uniform(1.0, 1.6) * dr
+        a, b = rng.choice([(1.0, 0.0), (0.7, 0.2), (4.0, -1.0)])
+        d = DiffuseDroplet(np.zeros(grid.dim), R, w)
+        field = ScalarField(grid, a * d.get_phase_field(grid).data + b)
+        vmin, vmax = b, a + b
+        levels = ["given", "fitted-given", "fitted-auto", "fitted-auto"][i % 4]
+        rargs = {"given": dict(vmin=vmin, vmax=vmax), "fitted-given": dict(vmin=vmin, vmax=vmax, adjust_values=True),
+                 "fitted-auto": dict(vmin=None, vmax=None, adjust_values=True)}[levels]
+        rule = rng.choice(["auto", "extrema", "mean", "otsu"])
+        case = {"grid": repr(grid), "droplets": [d.data.tolist()], "intensity_map": [a, b], "threshold": rule, "levels": levels, "kind": "small-radial"}
+        sig = {"grid": cls.__name__, "dim": grid.dim, "levels": levels, "threshold": rule}
+        ck.case(("small-radial", cls.__name__, nn, dr, R, w, a, b, levels, rule))
+        ck.count("special.small_radial." + levels)
+        try:
+            found = locate_droplets(field, threshold=rule, refine=True, refine_args=rargs)
+        except Exception as e:  # noqa: BLE001
+            ck.fail(f"locate_droplets(refine=True) raised {type(e).__name__}: {e}", {**sig, "check": "recovery", "error": type(e).__name__}, case)
+            continue
+        if len(found) != 1:
+            ck.fail(f"{len(found)} droplets returned for 1 rendered", {**sig, "check": "recovery_count"}, case)
+            continue
+        f = found[0]
+        if abs(f.radius - R) > TOL * R or abs(f.interface_width - w) > TOL * w:
+            ck.fail(f"recovered (R={f.radius}, w={f.interface_width}) for (R={R}, w={w}): relative errors {abs(f.radius - R) / R:.2g}, {abs(f.interface_width - w) / w:.2g}",
+                    {**sig, "check": "recovery"}, case)
+
+
 def replay(case: dict):
     ck = Check("C05", "quick", 0, level=LEVEL)
     run_cases(ck, 25)
@@ -264,4 +329,5 @@ def run(ck: Check):
     except RuntimeError as e:
         ck.mismatch("c05-residual", f"driver unavailable: {e}", {})
     periodic_cylinder_boundary(ck, ck.budget(4, 40))
+    small_radial(ck, ck.budget(8, 120))
     run_cases(ck, ck.budget(45, 1200))
